@@ -311,6 +311,9 @@ def get_vxc_full_response(
     if not ni.settings.nlof_settings.is_empty:
         raise NotImplementedError
     xctype = ni.settings.sl_settings.level
+    # like every other driver: set up the (spin-restricted) feature plans,
+    # whatever the integrator was last used for
+    ni.initialize_feature_generators(mol, grids, 1)
     make_rho, nset, nao = ni._gen_rho_evaluator(mol, dms, hermi, False, grids)
     ao_loc = mol.ao_loc_nr()
 
